@@ -1179,7 +1179,31 @@ impl DistributedTxCoordinator {
             stats.pending_abort += 1;
         }
 
+        // An abort that was announced (AbortIntent logged before the broadcast) but not completed
+        // stays decided: the transaction comes back as Aborting, never as a commit candidate,
+        // and the abort is queued again for the participants.
+        let mut resend = Vec::new();
+        for intent in &recovery_state.pending_abort_intents {
+            if let Some(tx) = pending.get_mut(&intent.tx_id) {
+                if matches!(tx.phase, TxPhase::Committing | TxPhase::Committed) {
+                    continue;
+                }
+                if tx.phase != TxPhase::Aborting {
+                    self.log_wal_entry(&TxWalEntry::PhaseChange {
+                        tx_id: intent.tx_id,
+                        from: tx.phase,
+                        to: TxPhase::Aborting,
+                    })?;
+                    tx.phase = TxPhase::Aborting;
+                }
+            }
+            resend.push((intent.tx_id, intent.reason.clone(), intent.shards.clone()));
+        }
+
         drop(pending);
+        if !resend.is_empty() {
+            self.pending_aborts.write().extend(resend);
+        }
         // Force-release orphaned locks from completed transactions
         for orphan in &recovery_state.orphaned_locks {
             tracing::warn!(
@@ -1769,9 +1793,13 @@ impl DistributedTxCoordinator {
 
     pub fn cleanup_timeouts(&self) -> Vec<u64> {
         let mut pending = self.pending.write();
+        // A transaction whose commit has been decided never times out into an abort:
+        // it can only be completed (complete_commit).
         let timed_out: Vec<_> = pending
             .iter()
-            .filter(|(_, tx)| tx.is_timed_out())
+            .filter(|(_, tx)| {
+                tx.is_timed_out() && !matches!(tx.phase, TxPhase::Committing | TxPhase::Committed)
+            })
             .map(|(id, _)| *id)
             .collect();
 
